@@ -116,29 +116,8 @@ func TestCheck(t *testing.T) {
 									}
 									return ""
 								}
-								var opErr error
-								var res string
-								switch stack {
-								case "dialer":
-									d := &kafka.Dialer{DialFunc: c.Dial, SASLMechanism: mech(m, cr.user, cr.pass), Timeout: 5 * time.Second, ClientID: "verif"}
-									conn, err := d.DialContext(context.Background(), "tcp", "b1:9092")
-									opErr = err
-									if err == nil {
-										conn.SetDeadline(time.Now().Add(5 * time.Second))
-										ps, perr := conn.ReadPartitions("t")
-										res = fmt.Sprint(len(ps), hx.ErrString(perr))
-										conn.Close()
-									}
-								case "transport":
-									cl, tr := clientops.NewClient(c)
-									tr.SASL = mech(m, cr.user, cr.pass)
-									defer tr.CloseIdleConnections()
-									r, err := cl.ListOffsets(context.Background(), &kafka.ListOffsetsRequest{Topics: map[string][]kafka.OffsetRequest{"t": {kafka.LastOffsetOf(0)}}})
-									opErr = err
-									if err == nil {
-										res = clientops.FmtListOffsets(r)
-									}
-								}
+								opErr, res, cleanup := runStack(c, stack, mech(m, cr.user, cr.pass))
+								defer cleanup()
 								key = fmt.Sprintf("%s:%v", stack, opErr == nil)
 								c.Lock()
 								defer c.Unlock()
@@ -203,5 +182,34 @@ func TestCheck(t *testing.T) {
 			}
 		}
 	}
+	cutSweep(t, s, thorough)
 	s.Finish()
+}
+
+// runStack dials (Dialer->Conn, then a metadata request) or runs a round trip (Transport, ListOffsets).
+// cleanup (closing the transport's idle connections) is for the caller to run after its checks.
+func runStack(c *fk.Cluster, stack string, m sasl.Mechanism) (opErr error, res string, cleanup func()) {
+	cleanup = func() {}
+	switch stack {
+	case "dialer":
+		d := &kafka.Dialer{DialFunc: c.Dial, SASLMechanism: m, Timeout: 5 * time.Second, ClientID: "verif"}
+		conn, err := d.DialContext(context.Background(), "tcp", "b1:9092")
+		opErr = err
+		if err == nil {
+			conn.SetDeadline(time.Now().Add(5 * time.Second))
+			ps, perr := conn.ReadPartitions("t")
+			res = fmt.Sprint(len(ps), hx.ErrString(perr))
+			conn.Close()
+		}
+	case "transport":
+		cl, tr := clientops.NewClient(c)
+		tr.SASL = m
+		cleanup = tr.CloseIdleConnections
+		r, err := cl.ListOffsets(context.Background(), &kafka.ListOffsetsRequest{Topics: map[string][]kafka.OffsetRequest{"t": {kafka.LastOffsetOf(0)}}})
+		opErr = err
+		if err == nil {
+			res = clientops.FmtListOffsets(r)
+		}
+	}
+	return
 }
